@@ -6,7 +6,8 @@ through the real qvalues.tdc / dataset._update_labels and z3 is asked for a thre
 in (0,1] at which the expected false discovery proportion among the accepted targets exceeds
 alpha. unsat = the q-values control the FDR exactly (not asymptotically) for this n.
 L2 = obligation 'scored by a model that never saw its spectrum' of check C02 (arbitrary-capacity
-learner); L3 = obligation 'q-values computed on exactly the retained rows' of check C03.
+learner); L3 = obligation 'q-values computed on exactly the retained rows' of check C03; the C02 / C03
+harnesses that carry them are run by this check too (prefixed L2: / L3:).
 L4 (decided here): the PSMs that survive the competition at spectrum and peptide level are the
 same for any two label vectors on the same spectra, peptides and scores (ties included), i.e.
 tie-breaking is label-blind.
@@ -133,6 +134,20 @@ def harnesses(tier):
                           assumptions=["distinct scores", "incorrect PSMs are target or decoy with probability 1/2 independently; correct PSMs are targets",
                                        "L2 is discharged by check C02, L3 by check C03; their composition into the distributional statement is a paper argument"],
                           sample_rate=1.0))
+    # L2 and L3 are decided by the harnesses of C02 / C03; the ones that carry the two lemmas are run
+    # here as well, so that this check stands on its own (a leak between a PSM and the model that
+    # scores it, or q-values computed before the competition, breaks C04 through them).
+    from checks import c02, c03
+    want2 = ("brew[n=4,folds=2]", "brew[n=4,folds=2,cap,rng,fixed labels]", "brew[n=4+2,folds=2,2 files,cap,fixed labels]") if tier == "quick" else None
+    for h in c02.harnesses(tier):
+        if want2 is None or h.name in want2:
+            h.name = "L2:" + h.name
+            hs.append(h)
+    want3 = ("confidence[n=3,all switches]",) if tier == "quick" else ("confidence[n=4,dedup+rollup+decoys]", "confidence[n=3,all switches,chunk symbolic]")
+    for h in c03.harnesses(tier):
+        if h.name in want3:
+            h.name = "L3:" + h.name
+            hs.append(h)
     return hs
 
 
@@ -214,3 +229,12 @@ def real_l4(cfg, inp):
 
 
 REAL = {"l1": real_l1, "l4": real_l4}
+
+
+def _lemma_reals():
+    from checks import c02, c03
+    REAL.setdefault("brew", c02.REAL["brew"])
+    REAL.setdefault("confidence", c03.REAL["confidence"])
+
+
+_lemma_reals()
